@@ -369,6 +369,15 @@ def walkCfiReal (w : CfiStackWalker) (lines : List Cfi.Bytes) : Outcome (Bool ×
               | .ok w3 => .ok (true, w3)
     | _, _ => .ok (false, w)
 
+/-- `clear_stack_win_caller_registers` (breakpad-symbols walker.rs:1048) on the real walker:
+    `clear_caller_register` for each name of the list, in order -/
+def clearAllReal : List String → CfiStackWalker → Outcome CfiStackWalker
+  | [], w => .ok w
+  | n :: t, w =>
+    match w.clearCallerRegister n with
+    | .ok w' => clearAllReal t w'
+    | .panic s => .panic s
+
 /-! ## `get_caller_by_cfi` and the end of `get_caller_frame` -/
 
 /-- what the unwinder is given: `GetCallerFrameArgs` -/
